@@ -477,3 +477,445 @@ class RoleTableTask(FiniteTask):
         # complementarity: the requestor may act as SCU exactly when the acceptor may act as SCP, and vice versa
         bad = [(rq, ac, o) for rq, row in T.items() for ac, o in row.items() if not (o[0] == o[3] and o[1] == o[2])]
         emit(f"{P}/every-cell-is-complementary", not bad, detail=bad[:5], model={"bad": bad[:5]})
+
+
+# ---------------------------------------------------------------------------------------------
+# negotiate_unrestricted  (negotiate_as_acceptor by contract)
+# ---------------------------------------------------------------------------------------------
+class PartitionLoop(LoopSpec):
+    """`for cx in rq_contexts: (storage | non_storage).append(cx)`: every proposed context goes to exactly one list"""
+
+    def __init__(self, loop, P):
+        self.P = P
+        self.lists, _ = accumulators(loop)
+
+    def havoc(self, I, fr):
+        for nm in self.lists:
+            fr.locals[nm] = []
+        I.ghost["iter"] = "partition"
+
+    def after_body(self, I, fr):
+        n = sum(len(fr.locals[nm]) for nm in self.lists)
+        I.ob(f"{self.P}/partition:every-proposed-context-goes-to-exactly-one-of-the-two-lists", n == 1 and len(self.lists) == 2)
+
+    def on_exit(self, I, fr):
+        g = I.ghost
+        # after the loop the two lists are arbitrary sub-sequences of the proposal list
+        rq = g["rq_seq"]
+        for k, nm in enumerate(self.lists):
+            n = I.fresh("int", f"n_{nm}")
+            I.assume(z3.And(n.e >= 0, n.e <= g["nrq"]))
+            sel = z3.Function(f"sel_{k}", INT, INT)
+
+            def elem(i, sel=sel, n=n):
+                I.assume(z3.Implies(z3.And(i >= 0, i < n.e), z3.And(sel(i) >= 0, sel(i) < g["nrq"])))
+                return rq.elem(sel(i))
+            fr.locals[nm] = SymSeq(nm, n.e, elem)
+            g.setdefault("sel", {})[nm] = (sel, n.e)
+
+
+class StorageLoop(LoopSpec):
+    def __init__(self, loop, P):
+        self.loop, self.P = loop, P
+        self.cv = ctx_var(loop)
+        self.lists, self.dicts = accumulators(loop)
+
+    def havoc(self, I, fr):
+        for nm in self.lists:
+            fr.locals[nm] = []
+        for nm in self.dicts:
+            fr.locals[nm] = {}
+        I.ghost["iter"] = "storage"
+
+    def on_exit(self, I, fr):
+        g = I.ghost
+        for nm in self.lists:
+            fr.locals[nm] = SymSeq("results", g["nrq"], lambda i: I.opaque("result"))
+        for nm in self.dicts:
+            n = I.fresh("int", "n_replies")
+            I.assume(n.e >= 0)
+            fr.locals[nm] = SymMap(I, "reply_roles", n.e, lambda i: I.opaque("k"), lambda i: I.opaque("reply"))
+        g["exit"] = "storage"
+
+    def after_body(self, I, fr):
+        g = I.ghost
+        P = self.P
+        res = fr.locals[self.lists[0]]
+        replies = fr.locals[self.dicts[0]] if self.dicts else {}
+        ctx = fr.locals.get(self.cv)
+        src = fr.locals.get(self.loop.target.id) if isinstance(self.loop.target, ast.Name) else None
+        ok = len(res) == 1 and res[0] is ctx and isinstance(ctx, Obj) and isinstance(src, Obj)
+        I.ob(f"{P}/storage-like:exactly-one-result-per-proposed-context", ok)
+        if not ok:
+            return
+        f, sf = ctx.fields, src.fields
+        I.ob(f"{P}/storage-like:result-carries-the-proposed-id-and-abstract-syntax",
+             z3.And(_b(I.eq(f["_context_id"], sf["_context_id"])), _b(I.eq(f["_abstract_syntax"], sf["_abstract_syntax"]))))
+        ts = f.get("_transfer_syntax")
+        first = sf["_transfer_syntax"].elem(z3.IntVal(0))
+        I.ob(f"{P}/storage-like:accepted-with-the-first-proposed-transfer-syntax",
+             f.get("result") == 0 and isinstance(ts, list) and len(ts) == 1 and _b(I.eq(ts[0], first)) is not False and
+             I.valid(_b(I.eq(ts[0], first))))
+        prop = g.get("role_lookup", (None, None)) if g.get("has_role_entry") else (None, None)
+        want = R.outcome(prop, (True, True))[2:]
+        got = (f.get("_as_scu"), f.get("_as_scp"))
+        if g.get("has_role_entry"):
+            I.ob(f"{P}/storage-like:roles-are-the-PS3.7-outcome-for-an-acceptor-supporting-both-roles", got == want,
+                 detail=f"proposal {prop}: got {got} want {want}")
+            okr = len(replies) == 1 and isinstance(next(iter(replies.values())), Obj)
+            I.ob(f"{P}/storage-like:one-role-reply-for-a-proposal", okr)
+            if okr:
+                rep = next(iter(replies.values()))
+                gr = (bool(I.getattr(rep, "scu_role")), bool(I.getattr(rep, "scp_role")))
+                I.ob(f"{P}/storage-like:role-reply-never-raises-a-role", gr == R.reply(prop, (True, True)), detail=f"{gr}")
+        else:
+            I.ob(f"{P}/storage-like:without-a-role-proposal-the-default-roles-apply(requestor-SCU,acceptor-SCP)", got == want,
+                 detail=f"no role proposal: acceptor roles (as_scu, as_scp) = {got}, PS3.7 default = {want}")
+            I.ob(f"{P}/storage-like:no-role-reply-without-a-proposal", len(replies) == 0)
+
+
+class NegUnrestrictedTask(Task):
+    name = "negotiate_unrestricted"
+    functions = [NEG_UN]
+
+    def __init__(self, prefix="C10/"):
+        self.prefix = prefix
+
+    def config(self, repo):
+        c = neg_config(self.prefix)
+        fi = repo.func(NEG_UN)
+        loops = loops_of(fi)
+        P = f"{self.prefix}{NEG_UN}"
+        if len(loops) != 2:
+            raise Unsupported(f"negotiate_unrestricted: expected 2 loops, found {len(loops)}")
+        c.loop_specs[(NEG_UN, 0)] = PartitionLoop(loops[0], P)
+        c.loop_specs[(NEG_UN, 1)] = StorageLoop(loops[1], P)
+
+        def neg_contract(I, args, kw):
+            g = I.ghost
+            g["normal_call"] = args
+            return ([], [])          # result list to append to (observed per iteration), role replies
+        c.summaries[NEG_AC] = neg_contract
+        # the storage-class test is opaque: any proposed context may be classified either way
+        c.module_consts[("pynetdicom.presentation", "_STORAGE_CLASSES")] = lambda I: Env("_STORAGE_CLASSES")
+        c.module_consts[("pynetdicom.presentation", "SOP_CLASS_MODULE")] = lambda I: Env("SOP_CLASS_MODULE")
+        return c
+
+    def body(self, I):
+        P = f"{self.prefix}{NEG_UN}"
+        g = I.ghost
+        rq, ac, roles = mk_inputs(I)
+        g["rq_seq"] = rq
+        orig_index = SymMap.sym_index
+        orig_contains = SymMap.sym_contains
+
+        def spy_index(self_, I_, k):
+            if self_.name == "roles":
+                v = orig_index(self_, I_, k)
+                g["has_role_entry"] = True
+                g["role_lookup"] = v
+                return v
+            return orig_index(self_, I_, k)
+
+        def spy_contains(self_, I_, k):
+            r = orig_contains(self_, I_, k)
+            return r
+        SymMap.sym_index = spy_index
+        try:
+            g["has_role_entry"] = False
+            kind, val = I.run_function(I.repo.func(NEG_UN), [rq, ac, roles])
+        finally:
+            SymMap.sym_index = orig_index
+        I.ob(f"{P}/no-exception", kind == "return", detail=f"{kind}:{val!r}")
+        if kind != "return":
+            return
+        call = g.get("normal_call")
+        ok = call is not None and isinstance(call[0], SymSeq) and call[1] is ac
+        I.ob(f"{P}/other-contexts-are-negotiated-normally-against-the-supported-contexts-and-role-proposals", ok)
+        results, replies = val
+        sorted_ok = isinstance(results, SortedView)
+        if sorted_ok and results.key is not None:
+            probe = Obj(I.repo.cls(f"{PR}:PresentationContext"))
+            pid = I.fresh("int", "probe_id")
+            probe.fields.update(_context_id=pid)
+            sorted_ok = I.call_value(results.key, [probe], {}) is pid
+        I.ob(f"{P}/results-are-all-per-context-results-sorted-by-context-id", sorted_ok)
+
+
+# ---------------------------------------------------------------------------------------------
+# negotiate_as_requestor  (C11)
+# ---------------------------------------------------------------------------------------------
+class RequestorLoop(LoopSpec):
+    def __init__(self, loop, P):
+        self.loop, self.P = loop, P
+        self.cv = ctx_var(loop)
+        self.lists, self.dicts = accumulators(loop)
+
+    def havoc(self, I, fr):
+        for nm in self.lists:
+            fr.locals[nm] = []
+        I.ghost["iter"] = "requestor"
+
+    def on_exit(self, I, fr):
+        g = I.ghost
+        for nm in self.lists:
+            fr.locals[nm] = SymSeq("results", g["nrq"], lambda i: I.opaque("result"))
+        g["exit"] = "requestor"
+
+    def after_body(self, I, fr):
+        g = I.ghost
+        P = self.P
+        r = z3.simplify(I._num(fr.locals["__idx0"], "int") - 1)
+        res = fr.locals[self.lists[0]]
+        ctx = fr.locals.get(self.cv)
+        ok = len(res) == 1 and res[0] is ctx and isinstance(ctx, Obj)
+        I.ob(f"{P}/every-requested-context-appears-exactly-once", ok)
+        if not ok:
+            return
+        f = ctx.fields
+        I.ob(f"{P}/result-carries-the-requested-id-and-abstract-syntax",
+             z3.And(_b(I.eq(f["_context_id"], SV(g["cid"](r), "int"))), _b(I.eq(f["_abstract_syntax"], UIDv(g["rq_ab"](r))))))
+        amap = g.get("acceptor_map")
+        b, w = amap.witness(I, SV(g["cid"](r), "int"))
+        answered = I.valid(b.e)
+        not_answered = I.valid(z3.Not(b.e))
+        I.ob(f"{P}/path-decides-whether-the-acceptor-answered-this-id", answered or not_answered)
+        ts = f.get("_transfer_syntax")
+        if not_answered:
+            I.ob(f"{P}/unanswered-context-is-rejected(provider)-with-its-first-proposed-transfer-syntax",
+                 f.get("result") == 2 and isinstance(ts, list) and len(ts) == 1 and I.valid(_b(I.eq(ts[0], UIDv(g["rq_ts"](r, 0))))))
+            I.ob(f"{P}/rejected-context-has-no-role", f.get("_as_scu") is False and f.get("_as_scp") is False)
+            return
+        wv = w.e
+        I.ob(f"{P}/result-is-the-acceptors-result-for-this-id", _b(I.eq(f.get("result"), SV(g["ac_res"](wv), "int"))))
+        if isinstance(ts, list) and ts:
+            I.ob(f"{P}/transfer-syntax-is-the-one-the-acceptor-returned",
+                 len(ts) == 1 and I.valid(_b(I.eq(ts[0], UIDv(g["ac_ts"](wv, 0))))))
+        # roles
+        rq_roles = g["rq_ctx_roles"].get(str(r), (None, None))
+        reply = g.get("reply_lookup") if g.get("has_reply") else (None, None)
+        accepted = f.get("result")
+        acc = I.valid(_b(I.eq(accepted, 0)))
+        rej = I.valid(z3.Not(_b(I.eq(accepted, 0))))
+        got = (f.get("_as_scu"), f.get("_as_scp"))
+        if acc and None not in reply:
+            want = R.outcome(rq_roles, reply)[:2]
+            I.ob(f"{P}/accepted-with-role-reply:roles-are-the-PS3.7-outcome", got == want,
+                 detail=f"requested {rq_roles} reply {reply}: got {got} want {want}")
+        elif acc or rej:
+            I.ob(f"{P}/no-role-reply-or-not-accepted:default-roles(requestor-SCU)", got == (True, False), detail=f"{got}")
+
+
+def mk_requestor_inputs(I):
+    g = I.ghost
+    cls = I.repo.cls(f"{PR}:PresentationContext")
+    nrq = I.input("int", "n_requested")
+    nac = I.input("int", "n_results")
+    I.assume(z3.And(nrq.e >= 1, nrq.e <= 128, nac.e >= 0))
+    cid, rq_ab, rq_tn, rq_ts = F("rq_id", INT, INT), F("rq_ab", INT, INT), F("rq_nts", INT, INT), F("rq_ts", INT, INT, INT)
+    ac_id, ac_res, ac_tn, ac_ts = F("ac_id", INT, INT), F("ac_res", INT, INT), F("ac_nts", INT, INT), F("ac_ts", INT, INT, INT)
+    g.update(nrq=nrq.e, nac=nac.e, cid=cid, rq_ab=rq_ab, rq_tn=rq_tn, rq_ts=rq_ts, ac_id=ac_id, ac_res=ac_res, ac_tn=ac_tn, ac_ts=ac_ts)
+    g["rq_ctx_roles"] = {}
+
+    def rq_elem(i):
+        o = Obj(cls, tag=f"rq[{i}]")
+        I.assume(z3.Implies(z3.And(i >= 0, i < nrq.e), z3.And(cid(i) >= 1, cid(i) <= 255, cid(i) % 2 == 1, rq_tn(i) >= 1)))
+        ts = SymSeq(f"rq[{i}].ts", rq_tn(i), lambda j, i=i: UIDv(rq_ts(i, j)))
+        key = str(z3.simplify(i))
+        if key not in g["rq_ctx_roles"]:
+            g["rq_ctx_roles"][key] = R.RQ_PROPOSALS[I.choose(5, "requested roles")]
+        scu, scp = g["rq_ctx_roles"][key]
+        o.fields.update(_context_id=SV(cid(i), "int"), _abstract_syntax=UIDv(rq_ab(i)), _transfer_syntax=ts, result=None,
+                        _scu_role=scu, _scp_role=scp, _as_scp=None, _as_scu=None)
+        return o
+
+    def ac_elem(k):
+        o = Obj(cls, tag=f"ac[{k}]")
+        I.assume(z3.Implies(z3.And(k >= 0, k < nac.e), z3.And(ac_tn(k) >= 0, ac_res(k) >= 0, ac_res(k) <= 4)))
+        ts = SymSeq(f"ac[{k}].ts", ac_tn(k), lambda j, k=k: UIDv(ac_ts(k, j)))
+        o.fields.update(_context_id=SV(ac_id(k), "int"), _abstract_syntax=None, _transfer_syntax=ts, result=SV(ac_res(k), "int"),
+                        _scu_role=None, _scp_role=None, _as_scp=None, _as_scu=None)
+        return o
+    rq = SymSeq("rq_contexts", nrq.e, rq_elem)
+    ac = SymSeq("ac_contexts", nac.e, ac_elem)
+    if I.choose(2, "role replies given") == 0:
+        nro = I.input("int", "n_replies")
+        I.assume(nro.e >= 1)
+        ro_ab = F("reply_ab", INT, INT)
+        g["reply_choice"] = {}
+
+        def val(i):
+            key = str(i)
+            if key not in g["reply_choice"]:
+                g["reply_choice"][key] = [(True, True), (True, False), (False, True), (False, False)][I.choose(4, "role reply")]
+            return g["reply_choice"][key]
+        roles = SymMap(I, "roles", nro.e, lambda i: UIDv(ro_ab(i)), val)
+    else:
+        roles = None
+    return rq, ac, roles
+
+
+class NegRequestorTask(Task):
+    name = "negotiate_as_requestor"
+    functions = [NEG_RQ]
+
+    def __init__(self, prefix="C11/"):
+        self.prefix = prefix
+
+    def config(self, repo):
+        c = neg_config(self.prefix)
+        loops = loops_of(repo.func(NEG_RQ))
+        if len(loops) != 1:
+            raise Unsupported(f"negotiate_as_requestor: expected 1 loop, found {len(loops)}")
+        c.loop_specs[(NEG_RQ, 0)] = RequestorLoop(loops[0], f"{self.prefix}{NEG_RQ}")
+        return c
+
+    def body(self, I):
+        P = f"{self.prefix}{NEG_RQ}"
+        g = I.ghost
+        rq, ac, roles = mk_requestor_inputs(I)
+        orig_query, orig_index = SymMap._query, SymMap.sym_index
+
+        def spy_query(self_, I_, k):
+            b, w = orig_query(self_, I_, k)
+            if self_.name != "roles" and not isinstance(k, UIDv):
+                g["acceptor_map"] = self_
+            return b, w
+
+        def spy_index(self_, I_, k):
+            if self_.name == "roles":
+                try:
+                    v = orig_index(self_, I_, k)
+                except PyRaise:
+                    g["has_reply"] = False
+                    raise
+                g["has_reply"], g["reply_lookup"] = True, v
+                return v
+            return orig_index(self_, I_, k)
+        SymMap._query, SymMap.sym_index = spy_query, spy_index
+        try:
+            g["has_reply"] = False
+            kind, val = I.run_function(I.repo.func(NEG_RQ), [rq, ac, roles])
+        finally:
+            SymMap._query, SymMap.sym_index = orig_query, orig_index
+        I.ob(f"{P}/no-exception-for-a-non-empty-request-list", kind == "return", detail=f"{kind}:{val!r}")
+        if kind != "return":
+            return
+        ok = isinstance(val, SortedView) and isinstance(val.seq, SymSeq) and val.seq.name == "results"
+        if ok and val.key is not None:
+            probe = Obj(I.repo.cls(f"{PR}:PresentationContext"))
+            pid = I.fresh("int", "probe_id")
+            probe.fields.update(_context_id=pid)
+            ok = I.call_value(val.key, [probe], {}) is pid
+        I.ob(f"{P}/returns-all-per-context-results-sorted-by-context-id", ok)
+
+
+# ---------------------------------------------------------------------------------------------
+# composition lemma (C11): acceptor view and requestor view agree — both REAL functions executed on every
+# role/transfer-syntax case of a single proposed context, the acceptor's answer handed to the requestor the way the
+# A-ASSOCIATE-AC carries it (id, result, one transfer syntax; role reply items by abstract syntax)
+# ---------------------------------------------------------------------------------------------
+class CompositionTask(FiniteTask):
+    name = "lemma/both-sides-hold-the-same-view"
+    functions = [NEG_AC, NEG_RQ]
+
+    def __init__(self, prefix="C11/"):
+        self.prefix = prefix
+
+    def check(self, repo, emit):
+        P = f"{self.prefix}lemma"
+        cfg = neg_config(self.prefix)
+        I = Interp(repo, cfg)
+        cls = repo.cls(f"{PR}:PresentationContext")
+
+        def cx(cid, ab, ts, scu=None, scp=None, result=None):
+            o = Obj(cls)
+            o.fields.update(_context_id=cid, _abstract_syntax=UIDv(z3.IntVal(ab)) if ab is not None else None,
+                            _transfer_syntax=[UIDv(z3.IntVal(t)) for t in ts], result=result, _scu_role=scu, _scp_role=scp,
+                            _as_scp=None, _as_scu=None)
+            return o
+        bad = {"ids": [], "ts": [], "roles": [], "once": []}
+        n = 0
+        ts_cases = [([1], [1]), ([1, 2], [2, 1]), ([1], [2]), ([1, 2, 3], [3, 1])]
+        for prop in [None] + R.RQ_PROPOSALS[1:]:
+            for ac_set in R.AC_SETTINGS:
+                for supported in (True, False):
+                    for rq_ts, ac_ts in ts_cases:
+                        n += 1
+                        I.begin_path([])
+                        # requestor's requested context carries its own proposed roles (ACSE applies them, see AcseRolesTask)
+                        rq_scu, rq_scp = (prop if prop else (None, None))
+                        proposed = [cx(1, 10, rq_ts), cx(3, 11, rq_ts)]
+                        sup = [cx(None, 10 if supported else 12, ac_ts, *ac_set)]
+                        roles = {proposed[0].fields["_abstract_syntax"]: prop} if prop else {}
+                        # dict keys must be the same abstract-syntax VALUE: use eq-based lookup through a SymMap-free dict
+                        k1, v1 = I.run_function(repo.func(NEG_AC), [proposed, sup, _EqDict(I, roles)])
+                        if k1 != "return":
+                            bad["once"].append((prop, ac_set, "acceptor raised"))
+                            continue
+                        results, replies = v1
+                        ac_view = {I.concretize(I._num(c.fields["_context_id"], "int")): c for c in results}
+                        # what the A-ASSOCIATE-AC carries
+                        wire = [cx(c.fields["_context_id"], None, [_ident(t) for t in c.fields["_transfer_syntax"][:1]], result=c.fields["result"])
+                                for c in results]
+                        reply_map = {I.getattr(r, "sop_class_uid"): (I.getattr(r, "scu_role"), I.getattr(r, "scp_role")) for r in replies}
+                        requested = [cx(1, 10, rq_ts, (rq_scu or False) if prop else None, (rq_scp or False) if prop else None),
+                                     cx(3, 11, rq_ts)]
+                        k2, v2 = I.run_function(repo.func(NEG_RQ), [requested, wire, _EqDict(I, reply_map)])
+                        if k2 != "return":
+                            bad["once"].append((prop, ac_set, "requestor raised"))
+                            continue
+                        rq_view = {c.fields["_context_id"]: c for c in v2}
+                        if sorted(rq_view) != [1, 3] or len(v2) != 2:
+                            bad["once"].append((prop, ac_set, sorted(rq_view)))
+                        acc_a = sorted(k for k, c in ac_view.items() if c.fields["result"] == 0)
+                        acc_r = sorted(k for k, c in rq_view.items() if c.fields["result"] == 0)
+                        if acc_a != acc_r:
+                            bad["ids"].append((prop, ac_set, supported, acc_a, acc_r))
+                        for k in acc_a:
+                            if k not in rq_view:
+                                continue
+                            a, r_ = ac_view[k].fields, rq_view[k].fields
+                            ta = [I.concretize(t.ident) for t in a["_transfer_syntax"]]
+                            tr = [I.concretize(t.ident) for t in r_["_transfer_syntax"]]
+                            if ta != tr or I.concretize(a["_abstract_syntax"].ident) != I.concretize(r_["_abstract_syntax"].ident):
+                                bad["ts"].append((prop, ac_set, ta, tr))
+                            if not (r_["_as_scu"] == a["_as_scp"] and r_["_as_scp"] == a["_as_scu"]):
+                                bad["roles"].append((prop, ac_set, (r_["_as_scu"], r_["_as_scp"]), (a["_as_scu"], a["_as_scp"])))
+        emit(f"{P}/every-requested-context-appears-exactly-once-on-the-requestor-side", not bad["once"], detail=bad["once"][:4],
+             model={"bad": bad["once"][:4]})
+        emit(f"{P}/both-sides-accept-the-same-context-ids", not bad["ids"], detail=f"{n} cases; bad={bad['ids'][:4]}", model={"bad": bad["ids"][:4]})
+        emit(f"{P}/accepted-contexts-have-the-same-abstract-and-transfer-syntax-on-both-sides", not bad["ts"], detail=bad["ts"][:4],
+             model={"bad": bad["ts"][:4]})
+        emit(f"{P}/roles-are-complementary:requestor-SCU-iff-acceptor-SCP-and-vice-versa", not bad["roles"], detail=bad["roles"][:4],
+             model={"bad": bad["roles"][:4]})
+
+
+def _ident(t):
+    return t.ident.as_long() if z3.is_int_value(t.ident) else t.ident
+
+
+class _EqDict:
+    """a small dict whose keys are compared with the interpreter's == (abstract UIDs are not hashable by value)"""
+
+    def __init__(self, I, d):
+        self.items_ = list(d.items())
+
+    def truth(self, I):
+        return len(self.items_) > 0
+
+    def _find(self, I, k):
+        for kk, v in self.items_:
+            t = I.eq(kk, k)
+            if t is True or (not isinstance(t, bool) and I.valid(t)):
+                return True, v
+        return False, None
+
+    def sym_contains(self, I, k):
+        return self._find(I, k)[0]
+
+    def sym_index(self, I, k):
+        ok, v = self._find(I, k)
+        if not ok:
+            raise PyRaise(ExcVal("KeyError", (k,)))
+        return v
